@@ -62,7 +62,7 @@ Hd(id, v, f64, asz, le, ob, lb, lr, mi, mo, dis) ==
 \* minimum_instruction_length, maximum_operations_per_instruction (v >= 4), default_is_stmt
 H1  == Hd("h1",  2, FALSE, 4, TRUE,  10,   -5,  14, 1, 1, TRUE)
 H2  == Hd("h2",  3, FALSE, 4, FALSE, 13,   -5,  14, 4, 1, TRUE)
-H3  == Hd("h3",  3, TRUE,  8, TRUE,  13,   -3,  12, 1, 1, FALSE)
+H3  == Hd("h3",  3, TRUE,  8, TRUE,  13,   -3,   9, 1, 1, FALSE)   \* 256 - opcode_base divisible by line_range
 H4  == Hd("h4",  4, FALSE, 8, TRUE,  13,   -5,  14, 1, 1, TRUE)
 H5  == Hd("h5",  4, FALSE, 4, TRUE,  13,   -5,  14, 4, 4, TRUE)
 H6  == Hd("h6",  4, TRUE,  8, FALSE, 14, -128, 255, 1, 3, FALSE)
@@ -83,7 +83,14 @@ H18 == Hd("h18", 3, TRUE,  4, FALSE, 255, -128,  1, 1, 1, TRUE)
 QuickHeaders == {H1, H2, H3, H4, H5, H6, H7, H8, H9, H10, H11, H12}
 ThoroughHeaders == QuickHeaders \cup {H13, H14, H15, H16, H17, H18}
 Len3Headers == {H2, H5, H6, H9, H11}
-SimHeaders == {H3, H4, H5, H6, H9, H11, H13, H14}
+\* simulation: header parameters drawn from a product (filtered for version constraints: no 64-bit format and
+\* no opcodes above 9 in v2, maximum_operations_per_instruction only from v4)
+SimHeaders ==
+  {hh \in {Hd("r", v, f64, asz, le, ob, lb, lr, mi, mo, dis) :
+              v \in 2..5, f64 \in BOOLEAN, asz \in {4, 8}, le \in BOOLEAN, ob \in {1, 4, 10, 13, 14, 255},
+              lb \in {-128, -5, 0, 3}, lr \in {1, 3, 9, 14, 255}, mi \in {1, 4}, mo \in {1, 4}, dis \in BOOLEAN} :
+     /\ (hh.v = 2 => (~hh.f64 /\ hh.ob <= 10))
+     /\ (hh.v < 4 => hh.mo = 1)}
 
 OSz(hh) == IF hh.f64 THEN 8 ELSE 4
 
@@ -193,9 +200,14 @@ Exec(hh, r, x) ==
     [] x.k = "unknown_ext" -> ExUnknownExt(r)
 
 \* declarative run over a whole program: <<final registers, rows>>
+\* (TLC evaluates LET definitions and operator arguments lazily: the conjuncts in the IF force the
+\* registers and the accumulated rows at every step, otherwise a 40-instruction program builds a chain of
+\* 40 nested thunks and overflows the Java stack)
 RECURSIVE RunFrom(_, _, _, _)
 RunFrom(hh, r, p, acc) == IF p = <<>> THEN Res(r, acc)
-                          ELSE LET e == Exec(hh, r, Head(p)) IN RunFrom(hh, e.r, Tail(p), acc \o e.out)
+                          ELSE LET e == Exec(hh, r, Head(p))   acc2 == acc \o e.out IN
+                               IF e.r.op_index >= 0 /\ Len(acc2) >= 0 THEN RunFrom(hh, e.r, Tail(p), acc2)
+                               ELSE Res(r, acc)
 RunProg(hh, p) == RunFrom(hh, R0(hh), p, <<>>)
 
 ES == I0("end_sequence")
@@ -204,7 +216,9 @@ Closed(p) == IF p = <<>> \/ p[Len(p)].k = "end_sequence" THEN p ELSE Append(p, E
 (* ====================================================================== *)
 (* (C) the reader: byte-level machine                                      *)
 (* ====================================================================== *)
-Rest(bs, pos) == SubSeq(bs, pos + 1, Len(bs))
+\* a LEB operand is looked for in a 10-byte window (operands written here are <= 5 bytes; the window only
+\* bounds the cost of LebDec, which scans its whole argument)
+Rest(bs, pos) == SubSeq(bs, pos + 1, IF pos + 10 < Len(bs) THEN pos + 10 ELSE Len(bs))
 UlebAt(bs, pos) == LET d == LebDec(Rest(bs, pos), FALSE)   v == GroupsNat(d.val.g) IN
                    [v |-> v, used |-> d.used, pad |-> d.used - Len(UlebOfNat(v))]
 SlebAt(bs, pos) == LET d == LebDec(Rest(bs, pos), TRUE)   v == GroupsInt(d.val.g, TRUE) IN
@@ -226,7 +240,7 @@ DecIns(hh, bs, pos) ==
                [] ex = 2 -> LET raw == Slice(bs, b0 + 2, l.v - 1) IN
                             I("set_address", 0, l.pad, DTrunc(IF hh.le THEN raw ELSE Rev(raw), 8), <<>>)
                [] ex = 3 /\ hh.v <= 4 ->
-                            LET nm == CStrAt(bs, b0 + 1)   us == UlebsAt(bs, b0 + 1 + nm.used, 3, <<>>) IN
+                            LET nm == CStrAt(SubSeq(bs, 1, b0 + l.v), b0 + 1)   us == UlebsAt(bs, b0 + 1 + nm.used, 3, <<>>) IN
                             I("define_file", 0, l.pad, nm.s, us.vals)
                [] ex = 4 /\ hh.v >= 4 -> I("set_discriminator", UlebAt(bs, b0 + 1).v, l.pad, <<>>, <<>>)
                [] OTHER -> I("unknown_ext", ex, l.pad, Slice(bs, b0 + 2, l.v - 1), <<>>)
@@ -244,8 +258,10 @@ DecIns(hh, bs, pos) ==
 RECURSIVE RunBytes(_, _, _, _, _, _)
 RunBytes(hh, bs, pos, r, ins, acc) ==
   IF pos >= Len(bs) THEN [ins |-> ins, rows |-> acc, pos |-> pos, r |-> r]
-  ELSE LET d == DecIns(hh, bs, pos)   e == Exec(hh, r, d.x) IN
-       RunBytes(hh, bs, d.next, e.r, Append(ins, d.x), acc \o e.out)
+  ELSE LET d == DecIns(hh, bs, pos)   e == Exec(hh, r, d.x)   ins2 == Append(ins, d.x)   acc2 == acc \o e.out IN
+       IF d.next > pos /\ e.r.op_index >= 0 /\ Len(ins2) >= 0 /\ Len(acc2) >= 0      \* progress; forces evaluation
+       THEN RunBytes(hh, bs, d.next, e.r, ins2, acc2)
+       ELSE [ins |-> ins, rows |-> acc, pos |-> -1, r |-> r]
 
 (* ====================================================================== *)
 (* (B) header, tables, sections                                            *)
@@ -480,15 +496,19 @@ TabView(u) ==
         files_after |-> LET fs == u.t.files \o DefinedFiles(u.p) IN [i \in 1..Len(fs) |-> File4J(fs[i])]]
 
 Devs == {"advance_pc", "const_add_pc", "fixed_advance_pc", "set_address"}
+\* spec-computed class of a program; the classes "max_ops>1" (VLIW header and one of the four opcodes whose
+\* effect depends on / resets op_index) and "unknown_std" isolate inputs on which deviations were observed
+Kinds(p) == {p[i].k : i \in 1..Len(p)}
 ProgTag(hh, p) ==
-  LET ks == {p[i].k : i \in 1..Len(p)} IN
-  (IF "unknown_std" \in ks THEN "unknown_std" ELSE IF hh.mo > 1 THEN "vliw" ELSE "plain")
-  \o (IF hh.mo > 1 /\ ks \cap Devs # {} THEN ",max_ops>1" ELSE "")
+  LET ks == Kinds(p) IN
+  IF hh.mo > 1 /\ ks \cap Devs # {} THEN "max_ops>1"
+  ELSE IF "unknown_std" \in ks THEN "unknown_std"
+  ELSE IF hh.mo > 1 THEN "vliw" ELSE "plain"
 
 \* expectations for one unit placed at offset off of .debug_line
 UnitView(u, off) ==
   LET g == UnitGeom(u) IN
-  [off |-> off, id |-> u.h.id, tag |-> ProgTag(u.h, u.p), start |-> off + g.start, end |-> off + g.end,
+  [off |-> off, id |-> u.h.id, tag |-> ProgTag(u.h, u.p), unk |-> ("unknown_std" \in Kinds(u.p)), start |-> off + g.start, end |-> off + g.end,
    hdr |-> [version |-> u.h.v, unit_length |-> g.end - InitLenSz(u.h), header_length |-> Len(g.tail),
             address_size |-> u.h.asz, f64 |-> u.h.f64,
             minimum_instruction_length |-> u.h.mi, maximum_operations_per_instruction |-> u.h.mo,
@@ -553,6 +573,8 @@ ConsumesExtent ==
      /\ m.r = regs
 
 \* generator sanity: addresses stay inside the address size, lines non-negative
+ConsumesExtentWhenDone == done => ConsumesExtent
+
 AddrFits == /\ \A i \in (h.asz + 1)..8 : regs.address[i] = 0
             /\ \A j \in 1..Len(rows) : \A i \in (h.asz + 1)..8 : rows[j].address[i] = 0
             /\ regs.line >= 0
